@@ -170,8 +170,75 @@ public:
     for (int i = 0; i < p->count_bad; i++) o << (i ? "," : "") << p->bad[i];
     o << "],\"minimal\":[";
     for (int i = 0; i < p->count_minimal; i++) o << (i ? "," : "") << p->minimal[i];
-    o << "]}";
+    o << "]";
+    if (inv->range == TRUE && p->count_good > 0) range_replay(inv, p->good[p->count_good - 1], o);
+    o << "}";
     nmodels++;
+  }
+
+  // ---- range replay.  SPECIFICATION of -range: for every solution fraction / phase transfer x_i that is in the reported model
+  // (or forced), min_i and max_i are the optima of   minimise |x_i - (-/+ range_max)|   over the constraint system of the model
+  // (same rows, the columns of the model plus the forced ones), computed with the engine's own shrink() and cl1() (iteration limit
+  // 200 as in range()).  The LPs are built here from my_array / delta, independently of Phreeqc::range(); the driver then
+  // compares bit for bit with what range() stored in min_delta / max_delta.  Identical => range() asks the right question and any
+  // value outside [min,max] is cl1's answer; different => range() itself is wrong.  With big=true the same LPs are solved with the
+  // iteration limit of solve_with_mask (100000) for diagnosis.
+  void one_range_lp(class inverse *inv, unsigned long cur_bits, size_t i, int f, int maxit, double &val, int &kode_out, int &iter_out) {
+    Phreeqc *p = this->PhreeqcPtr;
+    int k = (int)p->row_mb, l = (int)(p->row_epsilon - p->row_mb), m = (int)(p->count_rows - p->row_epsilon), n = (int)p->count_unknowns;
+    size_t mc = p->max_column_count, mr = p->max_row_count;
+    std::copy(p->my_array.begin(), p->my_array.begin() + mc * mr, p->array1.begin());
+    std::copy(p->delta.begin(), p->delta.begin() + mc, p->delta2.begin());
+    std::fill(p->inv_res.begin(), p->inv_res.begin() + mr, 0.0);
+    for (int j = 0; j < k; j++) std::fill(p->array1.begin() + j * mc, p->array1.begin() + (j + 1) * mc, 0.0);
+    p->array1[i] = 1.0;
+    p->array1[n] = (f < 0) ? -fabs(inv->range_max) : fabs(inv->range_max);
+    p->shrink(inv, &p->array1[0], &p->array1[0], &k, &l, &m, &n, cur_bits, &p->delta2[0], &p->col_back[0], &p->row_back[0]);
+    int kode = 1, iter = maxit;
+    double err2 = 0;
+    p->cl1(k, l, m, n, (int)p->nklmd, (int)p->n2d, &p->array1[0], &kode, p->toler, &iter, &p->delta2[0], &p->inv_res[0], &err2,
+           &p->inv_cu[0], &p->inv_iu[0], &p->inv_is[0], TRUE);
+    int j = 0;
+    for (; j < n; j++) if ((size_t)p->col_back[j] == i) break;
+    val = p->delta2[j];
+    kode_out = kode; iter_out = iter;
+  }
+  void range_replay(class inverse *inv, unsigned long model_bits, std::ostringstream &o) {
+    Phreeqc *p = this->PhreeqcPtr;
+    size_t ns = inv->count_solns, nph = inv->phases.size();
+    unsigned long cur = model_bits;
+    for (size_t i = 0; i < nph; i++) if (inv->phases[i].force == TRUE) cur |= 1ul << i;
+    for (size_t i = 0; i < ns; i++) if (inv->force_solns[i]) cur |= 1ul << (nph + i);
+    int calls = p->count_calls;
+    std::vector<double> rmin(ns + nph, 0.0), rmax(ns + nph, 0.0), bmin(ns + nph, 0.0), bmax(ns + nph, 0.0);
+    std::ostringstream kodes;
+    bool first = true;
+    try {
+      for (size_t i = 0; i < ns + nph; i++) {
+        if (i + 1 == ns) { rmin[i] = rmax[i] = bmin[i] = bmax[i] = 1.0; continue; }
+        bool in = (i < ns) ? ((cur >> (nph + i)) & 1ul) : ((cur >> (i - ns)) & 1ul);
+        if (!in) continue;
+        for (int f = -1; f < 2; f += 2) {
+          double v, vb; int kd, it, kdb, itb;
+          one_range_lp(inv, cur, i, f, 200, v, kd, it);
+          one_range_lp(inv, cur, i, f, 100000, vb, kdb, itb);
+          (f < 0 ? rmin[i] : rmax[i]) = v;
+          (f < 0 ? bmin[i] : bmax[i]) = vb;
+          kodes << (first ? "" : ",") << "[" << i << "," << f << "," << kd << "," << it << "," << kdb << "," << itb << "]";
+          first = false;
+        }
+      }
+    } catch (...) { kodes << (first ? "" : ",") << "[-1,0,-1,0,-1,0]"; }
+    p->count_calls = calls;
+    o << ",\"rmin\":[";
+    for (size_t i = 0; i < ns + nph; i++) o << (i ? "," : "") << hx(rmin[i]);
+    o << "],\"rmax\":[";
+    for (size_t i = 0; i < ns + nph; i++) o << (i ? "," : "") << hx(rmax[i]);
+    o << "],\"bmin\":[";
+    for (size_t i = 0; i < ns + nph; i++) o << (i ? "," : "") << hx(bmin[i]);
+    o << "],\"bmax\":[";
+    for (size_t i = 0; i < ns + nph; i++) o << (i ? "," : "") << hx(bmax[i]);
+    o << "],\"rkode\":[" << kodes.str() << "]";
   }
 
   // ---- oracle tabulation: called from the heading hook, i.e. after setup_inverse() and before
